@@ -12,6 +12,7 @@ the predicates of the Spec on what the server did.
 import GluonModel.Lemmas.ConnAck
 import GluonModel.Lemmas.ConnInvalid
 import GluonModel.Lemmas.ConnMsgID
+import GluonModel.Lemmas.ConnMapOrder
 import GluonModel.Generated.Facts.Ack
 
 namespace Gluon.C06
@@ -87,6 +88,26 @@ theorem waiter_reads_once (e : Option Err) :
     (w.wait).1 = some (e, e.isSome) ∧ ((w.wait).2.wait).1 = some (none, false) ∧
     (w.wait).2.done none = .panicClosed := by
   cases e <;> simp [Waiter.wait, Waiter.done]
+
+/-- **How a violation of "exactly once" shows at the connector (what oracle `c06updates` watches
+    for under its per-update watchdog)** — no `Done` at all: `Wait` on the fresh waiter blocks
+    (`none`; the oracle reports `cause=update-never-acknowledged`); a second `Done`, with any result
+    after any first result: "send on / close of a closed channel", i.e. a panic of the goroutine that
+    applies the updates (`cause=update-acknowledged-twice`; nothing is taken from the connector
+    afterwards). -/
+theorem ack_violations_observable (e e' : Option Err) :
+    (Waiter.new.wait).1 = none ∧
+    (∀ w, Waiter.new.done e = .ok w → w.done e' = .panicClosed) := by
+  refine ⟨by simp [Waiter.wait, Waiter.new], ?_⟩
+  intro w h
+  cases e <;> simp [Waiter.done, Waiter.new] at h <;> subst h <;> simp [Waiter.done]
+
+/-- …and the loop shapes that produce them: an `apply` that calls `Done` twice ends the waiter of
+    its update in that panic, one that calls it never leaves the waiter as it was created -/
+example :
+    feedWaiter 0 (runLoop { doneCalls := 2, exitsOnError := false } (Cfg.default true) DB.initial 0 [.noop]).1 (.ok Waiter.new) = .panicClosed ∧
+    feedWaiter 0 (runLoop { doneCalls := 0, exitsOnError := false } (Cfg.default true) DB.initial 0 [.noop]).1 (.ok Waiter.new) = .ok Waiter.new := by
+  decide
 
 /-- **The pipeline continues whatever came before** — every update of the sequence is taken from
     the channel exactly once, in particular those after a failing one, and the index the loop ends
@@ -190,6 +211,127 @@ theorem apply_effect_MessagesCreated_counterexample :
     (apply cfgToday sampleDB u).db.liveMsg "gone" = none ∧
     (apply cfgToday sampleDB u).db.inMbox "0" "gone" = true ∧
     gc (apply cfgToday sampleDB u).db [] = (apply cfgToday sampleDB u).db := by
+  decide
+
+/-! ### MessagesCreated: the Go map iteration over `messageForMBox`
+
+`applyMessagesCreated` ends with `for mboxID, msgList := range messageForMBox { … }` — a Go *map*:
+the order of the visits is unspecified and differs from run to run.  The model
+(`applyMessagesCreated`, `assignAll`) visits the mailboxes in insertion order, as one representative
+schedule; `applyMessagesCreatedIn ord` is the same function with the visits in the order `ord`
+picks.  The theorems below say that the choice is immaterial except for *which* of the failing
+mailboxes' errors is acknowledged, and not even for that when the index is inside its invariant. -/
+
+/-- **The order in which Go walks `messageForMBox` does not matter for the index nor for success** —
+    for every configuration, every index (no invariant assumed), every batch and every order `ord`
+    (any function that returns a permutation of its argument; the map has one entry per mailbox:
+    `mscLoop_keys_nodup`): the index afterwards is the same as under the model's insertion order
+    (the transaction either commits the same rows, with the same UIDs, or is rolled back), the update
+    is refused under the one order iff it is refused under the other, and the error that is
+    acknowledged is one of `mscPossibleErrs` — the errors the individual mailboxes raise, each by
+    itself, against the index as it was (a visit only reads and writes its own mailbox). -/
+theorem messagesCreated_map_order (cfg : Cfg) (db : DB) (ignore : Bool) (msgs : List NewMsg)
+    (ord : List (Nat × List (Nat × RID)) → List (Nat × List (Nat × RID))) (hperm : ∀ l, (ord l).Perm l) :
+    (applyMessagesCreatedIn ord cfg db ignore msgs).db = (applyMessagesCreated cfg db ignore msgs).db ∧
+    ((applyMessagesCreatedIn ord cfg db ignore msgs).err.isSome = (applyMessagesCreated cfg db ignore msgs).err.isSome) ∧
+    ∀ e, (applyMessagesCreatedIn ord cfg db ignore msgs).err = some e → e ∈ mscPossibleErrs cfg db ignore msgs :=
+  applyMessagesCreatedIn_spec ord hperm cfg db ignore msgs
+
+/-- **…in particular the error the model acknowledges is one of the possible ones** (the identity
+    order), and `mscPossibleErrs` is empty exactly when the update succeeds: so "the server
+    acknowledged an error of `mscPossibleErrs`" is what can be demanded of an implementation whose
+    iteration order is not known. -/
+theorem messagesCreated_err_possible (cfg : Cfg) (db : DB) (ignore : Bool) (msgs : List NewMsg) (e : Err)
+    (h : (applyMessagesCreated cfg db ignore msgs).err = some e) : e ∈ mscPossibleErrs cfg db ignore msgs :=
+  (applyMessagesCreatedIn_spec id (fun l => List.Perm.refl l) cfg db ignore msgs).2.2 e h
+
+/-- **The update fails iff some error is possible** — `mscPossibleErrs` is not a superset that is
+    only sometimes tight: it is empty iff `applyMessagesCreated` succeeds. -/
+theorem messagesCreated_fails_iff_possible (cfg : Cfg) (db : DB) (ignore : Bool) (msgs : List NewMsg) :
+    (applyMessagesCreated cfg db ignore msgs).err.isSome = !(mscPossibleErrs cfg db ignore msgs).isEmpty := by
+  unfold applyMessagesCreated mscPossibleErrs
+  cases hl : mscLoop cfg db ignore { toCreate := [], forMbox := [] } msgs with
+  | error e0 => rfl
+  | ok acc =>
+    simp only
+    split
+    · rfl
+    · have h := errOf_assignAll_isSome cfg acc.forMbox
+        { db with msgs := db.msgs ++ acc.toCreate, nextMsg := db.nextMsg + acc.toCreate.length }
+        (mscLoop_keys_nodup cfg db ignore msgs acc hl)
+      rw [← h]
+      cases assignAll cfg { db with msgs := db.msgs ++ acc.toCreate, nextMsg := db.nextMsg + acc.toCreate.length }
+        acc.forMbox with
+      | error e => rfl
+      | ok r => rfl
+
+/-- **With an index inside its invariant the acknowledged error does not depend on the order
+    either** — under `Inv db` the UNIQUE constraints of a mailbox table cannot fire and every listed
+    mailbox exists, so a mailbox can only refuse its messages with a limit error: every order
+    acknowledges the same result, and the only errors possible at all are "not found" (an unknown
+    mailbox id in the batch, detected by the first loop, which ranges over a slice) and a limit. -/
+theorem messagesCreated_map_order_inv (cfg : Cfg) (db : DB) (ignore : Bool) (msgs : List NewMsg) (hi : Inv db = true)
+    (ord : List (Nat × List (Nat × RID)) → List (Nat × List (Nat × RID))) (hperm : ∀ l, (ord l).Perm l) :
+    (applyMessagesCreatedIn ord cfg db ignore msgs).db = (applyMessagesCreated cfg db ignore msgs).db ∧
+    (applyMessagesCreatedIn ord cfg db ignore msgs).err = (applyMessagesCreated cfg db ignore msgs).err ∧
+    ∀ e ∈ mscPossibleErrs cfg db ignore msgs, e = .notFound ∨ e = .limit :=
+  ⟨(applyMessagesCreatedIn_spec ord hperm cfg db ignore msgs).1,
+   applyMessagesCreatedIn_err_of_inv ord hperm cfg db ((inv_iff db).1 hi) ignore msgs,
+   mscPossibleErrs_of_inv cfg db ((inv_iff db).1 hi) ignore msgs⟩
+
+/-- small limits for the witness below: at most 4 messages per mailbox, UIDs up to 9 -/
+def orderCfg : Cfg :=
+  { maxMailboxes := 9, maxMessages := 4, maxUID := 9, maxUIDValidity := 99, msgIDTableOK := true,
+    recoveryRID := recoveryRemoteID, recoveryIID := 1 }
+
+/-- an index as the known defect `row-remote-id-copy` leaves it (`messageIDChanged_stale_row_copies_counterexample`):
+    message 2 was renamed `m3` → `mi4`, the rows of `mb1` and `mb2` still carry `m3`; `mb2` is full -/
+def orderDB : DB :=
+  { mboxes := [ { iid := 1, rid := recoveryRemoteID, name := "Recovered Messages", uidv := 1, subscribed := true, seq := 0, rows := [] },
+                { iid := 3, rid := "mb1", name := "mb1", uidv := 2, subscribed := true, seq := 4,
+                  rows := [ { uid := 2, msg := 1, rid := "m2", deleted := false }, { uid := 4, msg := 2, rid := "m3", deleted := false } ] },
+                { iid := 4, rid := "mb2", name := "mb2", uidv := 3, subscribed := true, seq := 4,
+                  rows := [ { uid := 1, msg := 0, rid := "m1", deleted := false }, { uid := 2, msg := 1, rid := "m2", deleted := false },
+                            { uid := 3, msg := 2, rid := "m3", deleted := false }, { uid := 4, msg := 3, rid := "m5", deleted := false } ] } ],
+    msgs := [ { iid := 0, rid := "m1", flags := [], deleted := false, lit := "l1" },
+              { iid := 1, rid := "m2", flags := [], deleted := false, lit := "l1" },
+              { iid := 2, rid := "mi4", flags := [], deleted := false, lit := "l1" },
+              { iid := 3, rid := "m5", flags := [], deleted := false, lit := "l1" } ],
+    delSubs := [], nextMbox := 5, nextMsg := 4, gen := 3 }
+
+/-- `m1` (known) goes to `mb1`; `m3` (unknown since the rename: a new message) goes to `mb1` and `mb2` -/
+def orderBatch : List NewMsg :=
+  [ { rid := "m1", flags := [], lit := "l1", mboxes := ["mb1"] },
+    { rid := "m3", flags := [], lit := "l1", mboxes := ["mb1", "mb2"] } ]
+
+/-- **The order is visible in the acknowledged error when two mailboxes fail differently** (observed
+    on the real server as a run-to-run difference: `err:limit` where the model said
+    `err:constraint`; the witness needs an index outside its invariant — here the stale remote-id
+    copies of the known defect `row-remote-id-copy` — see `messagesCreated_map_order_inv`): `mb1`
+    refuses `m3` with a UNIQUE-constraint error (the stale row copy), `mb2` refuses it with a limit
+    error (a fifth message where four are allowed).  Visiting `mb1` first (insertion order, the
+    model) acknowledges the constraint error, visiting `mb2` first (`List.reverse`) the limit error;
+    both are in `mscPossibleErrs`, and the index is unchanged either way. -/
+theorem messagesCreated_map_order_witness :
+    Inv orderDB = false ∧
+    (applyMessagesCreated orderCfg orderDB true orderBatch).err = some .constraint ∧
+    (applyMessagesCreatedIn List.reverse orderCfg orderDB true orderBatch).err = some .limit ∧
+    (applyMessagesCreated orderCfg orderDB true orderBatch).db = orderDB ∧
+    (applyMessagesCreatedIn List.reverse orderCfg orderDB true orderBatch).db = orderDB ∧
+    mscPossibleErrs orderCfg orderDB true orderBatch = [.constraint, .limit] := by
+  decide
+
+/-- non-vacuity of `messagesCreated_map_order`: `List.reverse` is an order (and so is the identity) -/
+example : ∀ l : List (Nat × List (Nat × RID)), (List.reverse l).Perm l := fun l => List.reverse_perm l
+
+/-- non-vacuity of `messagesCreated_map_order_inv`: a sane index, two mailboxes visited, both orders
+    succeed with the same index -/
+example :
+    let ms : List NewMsg := [{ rid := "c", flags := ["seen"], lit := "l1", mboxes := ["0", "mb1"] }]
+    Inv sampleDB = true ∧
+    (applyMessagesCreatedIn List.reverse cfgToday sampleDB false ms).err = none ∧
+    (applyMessagesCreatedIn List.reverse cfgToday sampleDB false ms).db = (applyMessagesCreated cfgToday sampleDB false ms).db ∧
+    (applyMessagesCreatedIn List.reverse cfgToday sampleDB false ms).evs ≠ (applyMessagesCreated cfgToday sampleDB false ms).evs := by
   decide
 
 /-- **MessageMailboxesUpdated** — a live message, no protected id in the list, room in every
